@@ -134,6 +134,7 @@ pub fn check_idempotent(
             };
             let mut v_u = u.clone();
             v_u.text = input.to_string();
+            v_u.cfg = cfg.clone();
             v_u.key = format!("{}{}", u.key, label);
             sink.violation(
                 prop,
@@ -203,6 +204,39 @@ impl Prop for C02 {
         sink.sample(json!({"unit": u.key, "input": u.text, "config": u.cfg.label(),
             "history": "x -> fmt(x)=y1 -> fmt(y1)=y2, require y2==y1, at every width"}));
         check_idempotent("C02", u, &u.text, &u.cfg, tier, sink, "");
+        // long paragraph comments before items / statements under the comment-rewriting options
+        // (the re-flow arithmetic of wrap_comments has its own width thresholds)
+        let l0_base = u.cfg.kv.is_empty() && u.key.ends_with("/L0");
+        if l0_base {
+            let first_ctx = ["@top/", "@impl/", "@fn/", "@let/", "@alias/", "@file/"].iter().any(|c| u.key.contains(c));
+            let is_base = u.key.find('[').map_or(true, |i| u.key[i + 1..u.key.find(']').unwrap_or(i + 1)].split(',').all(|c| c == "0" || c.is_empty()));
+            if (tier == Tier::Thorough || (first_ctx && is_base)) && (u.cfg.style_edition == 2024 || tier == Tier::Thorough) {
+                if let Some(pos) = positions_kinded(&u.text, u.cfg.edition) {
+                    // the first Before position of an item and of a statement
+                    let mut picked: Vec<usize> = vec![];
+                    for want in [Kind::Item, Kind::Stmt, Kind::AssocItem] {
+                        if let Some((off, _, _)) = pos.iter().find(|(_, k, nk)| *k == PosKind::Before && *nk == want) {
+                            if !picked.contains(off) {
+                                picked.push(*off);
+                            }
+                        }
+                    }
+                    for off in picked {
+                        for st in [CStyle::LongPara, CStyle::LongDoc] {
+                            let input = gen::insert_comments(&u.text, &[(off, st)]);
+                            if !parse::parses(&input, u.cfg.edition) {
+                                continue;
+                            }
+                            for cw in ["60", "100"] {
+                                let cfg = u.cfg.clone().with("wrap_comments", "true").with("comment_width", cw);
+                                sink.count("comment_cases", 1);
+                                check_idempotent("C02", u, &input, &cfg, tier, sink, &format!("+c@{off}:{st:?}"));
+                            }
+                        }
+                    }
+                }
+            }
+        }
         // comments: only on default-config units (comment-relevant options are C03's axis)
         let with_comments = u.cfg.kv.is_empty() && (u.key.ends_with("/L0") || u.key.ends_with("/LALL"));
         if !with_comments {
